@@ -541,11 +541,32 @@ static void rescoring_probe(decoder_t *d, uint64_t seed, int every)
     free(inA); free(inB); free(firstB);
 }
 
+/* Does the exported text DENOTE the mean in use?  Largest deviation between the numbers of `text` and the actual
+ * state cmn->cmn_mean (read through decoder -> acmod -> fcb -> cmn_struct), relative to the printed precision of
+ * "%g" (6 significant digits); 1e9 when the text has too few numbers or a side is not finite. */
+static double cmn_text_vs_state(const char *text, cmn_t *cm)
+{
+    const char *p = text;
+    double worst = 0;
+    int i;
+    if (!text) return 1e9;
+    for (i = 0; i < cm->veclen; i++) {
+        char *e;
+        double v = strtod(p, &e), m = cm->cmn_mean[i], err;
+        if (e == p) return 1e9;
+        p = e; if (*p == ',') p++;
+        if (!isfinite(v) || !isfinite(m)) return 1e9;
+        err = fabs(v - m) / (fabs(m) > 1e-30 ? fabs(m) : 1e-30);
+        if (fabs(v - m) > 1e-37 && err > worst) worst = err;
+    }
+    return worst;
+}
+
 /* One export / re-import cycle of the CMN state through the public API:
  *   g = decoder_get_cmn(d, update); every number finite?  state arrays finite?
  *   decoder_set_cmn(d, g) must ACCEPT what get just produced (return 0);
  *   decoder_get_cmn(d, 0) must give the same text; the mean may move by at most the %g rounding. */
-static void cmn_roundtrip(decoder_t *d, int update, int *struct_fin, int *text_fin, int *rt, int *set_rc, double *relerr, char **text)
+static void cmn_roundtrip(decoder_t *d, int update, int *struct_fin, int *text_fin, int *rt, int *set_rc, double *relerr, double *denote, char **text)
 {
     cmn_t *cm = d->acmod->fcb->cmn_struct;
     float before[64]; int nv = cm->veclen < 64 ? cm->veclen : 64, i;
@@ -560,6 +581,7 @@ static void cmn_roundtrip(decoder_t *d, int update, int *struct_fin, int *text_f
     c1 = strdup(g1 ? g1 : "(null)");
     for (i = 0; i < nv; i++) before[i] = cm->cmn_mean[i];
     *text_fin = g1 ? cmn_text_finite(c1) : 0;
+    { double dn = cmn_text_vs_state(g1, cm); if (dn > *denote) *denote = dn; }   /* export must denote the state in use */
     *set_rc = decoder_set_cmn(d, c1);
     g2 = decoder_get_cmn(d, 0);
     c2 = strdup(g2 ? g2 : "(null)");
@@ -635,7 +657,8 @@ static int main_sig(const char *json, const char *speech, const char *lang)
         double *sig; int16 *s16 = NULL; float32 *f32 = NULL;
         obs_t o;
         int32 score = 0; long long segsum = 0; int nseg = 0, segbad = 0;
-        const char *hyp; char *c1, *c2; int cmn_fin, cmn_rt, cmn_struct_fin = 1, cmn_set_rc = 0, cmn_bad_update = -1; double cmn_relerr = 0;
+        const char *hyp; char *c1, *c2; int cmn_fin, cmn_rt, cmn_struct_fin = 1, cmn_set_rc = 0, cmn_bad_update = -1; double cmn_relerr = 0, cmn_denote = 0, mid_err = 0;
+        long mid_checks = 0, mid_bad = 0, mid_first = -1, mid_next = 0;
         cmn_t *cm;
         if (nw < 10 || (strcmp(w[0], "utt") && strcmp(w[0], "probe"))) { printf("bad-op\n"); fflush(stdout); continue; }
         probe = !strcmp(w[0], "probe");
@@ -743,6 +766,16 @@ static int main_sig(const char *json, const char *speech, const char *lang)
                 if (isf) decoder_process_float32(d, f32 + pos, m, 1, 0); else decoder_process_int16(d, s16 + pos, m, 1, 0);
                 forward(d, &o);
                 pos += m;
+                /* export IN THE MIDDLE of the utterance, WITHOUT the update flag, about every 50 frames: the text must
+                 * denote the mean the live CMN is using right now (state read through the headers) */
+                if (d->acmod->fcb->cmn_struct && (long)(pos / (size_t)d->acmod->fe->frame_shift) >= mid_next) {
+                    long fr_now = (long)(pos / (size_t)d->acmod->fe->frame_shift);
+                    double e = cmn_text_vs_state(decoder_get_cmn(d, 0), d->acmod->fcb->cmn_struct);
+                    mid_checks++;
+                    if (e > mid_err) mid_err = e;
+                    if (e > 2e-5) { mid_bad++; if (mid_first < 0) mid_first = fr_now; }
+                    mid_next = fr_now + 50;
+                }
             }
         }
         /* = decoder_end_utt with per-frame observation */
@@ -778,7 +811,7 @@ static int main_sig(const char *json, const char *speech, const char *lang)
             else if (upd == 2) { seq[nseq++] = 0; seq[nseq++] = 1; } else { seq[nseq++] = 1; seq[nseq++] = 0; }
             for (q = 0; q < nseq; q++) {
                 int f1 = 1, r1 = 1, sf = 1, src = 0; double re = 0; char *txt = NULL;
-                cmn_roundtrip(d, seq[q], &sf, &f1, &r1, &src, &re, &txt);
+                cmn_roundtrip(d, seq[q], &sf, &f1, &r1, &src, &re, &cmn_denote, &txt);
                 if (!sf) cmn_struct_fin = 0;
                 if (!f1) cmn_fin = 0;
                 if (!r1) cmn_rt = 0;
@@ -792,12 +825,13 @@ static int main_sig(const char *json, const char *speech, const char *lang)
                "c0neg=%ld sen_frames=%ld sen_empty=%ld sen_neg=%ld sen_minnz=%ld sen_first_bad=%ld sen_max=%d "
                "hmm_checked=%ld hmm_bad=%ld hmm_min=%d hmm_max=%d best_frames=%ld best_up=%ld best_pos=%ld best_last=%d "
                "hist_n=%ld hist_bad=%ld hist_up=%ld hyp=%d score=%d nseg=%d segsum=%lld segbad=%d "
-               "cmn_struct_fin=%d cmn_fin=%d cmn_rt=%d cmn_set_rc=%d cmn_bad_update=%d cmn_relerr=%.3g nframes=%d cmn=%s\n",
+               "cmn_struct_fin=%d cmn_fin=%d cmn_rt=%d cmn_set_rc=%d cmn_bad_update=%d cmn_relerr=%.3g cmn_denote=%.3g "
+               "cmn_mid_checks=%ld cmn_mid_bad=%ld cmn_mid_first=%ld cmn_mid_err=%.3g nframes=%d cmn=%s\n",
                o.ncep, o.cep_bad, o.cep_first_bad, o.nfeat, o.feat_bad, o.feat_first_bad,
                o.c0neg, o.sen_frames, o.sen_empty, o.sen_neg, o.sen_minnz, o.sen_first_bad, o.sen_max == INT_MIN ? -1 : o.sen_max,
                o.hmm_checked, o.hmm_bad, o.hmm_min, o.hmm_max == INT_MIN ? 1 : o.hmm_max, o.best_frames, o.best_up, o.best_pos, o.best_last,
                o.hist_n, o.hist_bad, o.hist_up, hyp ? 1 : 0, score, nseg, segsum, segbad,
-               cmn_struct_fin, cmn_fin, cmn_rt, cmn_set_rc, cmn_bad_update, cmn_relerr, decoder_n_frames(d), c1);
+               cmn_struct_fin, cmn_fin, cmn_rt, cmn_set_rc, cmn_bad_update, cmn_relerr, cmn_denote, mid_checks, mid_bad, mid_first, mid_err, decoder_n_frames(d), c1);
         fflush(stdout);
         free(c1); free(c2);
     next:
